@@ -25,14 +25,19 @@ class _Prog(nn.Module):
         Conv = nn.Conv1d if dim == 1 else nn.Conv2d
         for op in self._ops:
             k = op['op']
+            if k == 'conv' and op['pad'] == 'causal':
+                # the explicit left padding PIT prescribes: by default one module per layer (shared
+                # by all of its invocations); `pad_mod` names another one (one per call site, or one
+                # shared by several layers)
+                pname = op.get('pad_mod') or (op['name'] + '_pad')
+                if not hasattr(self, pname):
+                    self.add_module(pname, nn.ConstantPad1d(((op['k'] - 1) * op['d'], 0), 0))
             if op.get('reuse'):
                 continue
             if k == 'conv':
                 groups = op['cin'] if op.get('dw') else 1
                 pad = op['pad']
                 if pad == 'causal':
-                    self.add_module(op['name'] + '_pad',
-                                    nn.ConstantPad1d(((op['k'] - 1) * op['d'], 0), 0))
                     pad = 0
                 elif pad == 'none':
                     pad = 0
@@ -80,7 +85,7 @@ class _Prog(nn.Module):
             if k == 'conv':
                 x = vals[op['src']]
                 if op['pad'] == 'causal':
-                    x = getattr(self, op['name'] + '_pad')(x)
+                    x = getattr(self, op.get('pad_mod') or (op['name'] + '_pad'))(x)
                 y = getattr(self, op['name'])(x)
             elif k in ('lin', 'bn', 'pool'):
                 y = getattr(self, op['name'])(vals[op['src']])
@@ -900,6 +905,127 @@ def reuse_program(rng, family='1d', same_size=True, with_bn=False, pre_bn_consum
             'features': ['reuse', 'reuse-same' if same_size else 'reuse-diffsize', 'tcat'] +
             (['reuse-conv-bn-pair', 'bn'] if with_bn else []) +
             (['reuse-pair-pre-bn-consumer'] if with_bn and pre_bn_consumer else []), 'traits': []}
+
+
+def reuse_split_program(rng, family='1d', delay=0, variant='out'):
+    """One searchable conv invoked twice, the two invocations lying in *different* width-sharing
+    groups.  variant 'out': the first result is summed into the network output (its width is
+    frozen), the second only feeds a hidden convolution; variant 'res': the first result is summed
+    with another searchable convolution (one shared mask), the second feeds a hidden convolution.
+    `delay` element-wise ops postpone the first call site in a reverse traversal from the output.
+    One module has one weight tensor and one mask: all the tied layers must end up with the same
+    (for 'out': full) width whichever call site a graph pass happens to visit first."""
+    c = rng.randint(1, 3)
+    co = rng.randint(3, 6)
+    if family == '1d':
+        inputs = [[c, rng.randint(6, 12)]]
+        geo = {'k': rng.choice([1, 2, 3, 5]), 'd': 1, 's': 1, 'pad': 'causal'}
+    else:
+        inputs = [[c, rng.randint(5, 8), rng.randint(5, 8)]]
+        geo = {'k': 3, 'd': 1, 's': 1, 'pad': 'same'}
+
+    def conv(name, src, out, cin, cout, **kw):
+        return dict({'op': 'conv', 'name': name, 'src': src, 'out': out, 'cin': cin, 'cout': cout,
+                     'bias': rng.random() < 0.7, 'dw': False}, **dict(geo, **kw))
+    ops = [conv('shared', 'x0', 'a', c, co),
+           {'op': 'act', 'kind': 'relu_f', 'src': 'a', 'out': 'a1'},
+           conv('mid', 'a1', 'm', co, c),
+           {'op': 'act', 'kind': 'relu_t', 'src': 'm', 'out': 't'},
+           dict(conv('shared', 't', 'b', c, co), reuse=True),
+           {'op': 'act', 'kind': 'relu_f', 'src': 'b', 'out': 'b1'},
+           conv('head', 'b1', 'h', co, co)]
+    ops[4]['bias'] = ops[0]['bias']
+    cur = 'a'
+    for i in range(delay):
+        ops.append({'op': 'act', 'kind': 'relu_t' if i % 2 else 'relu_f', 'src': cur, 'out': f'd{i}'})
+        cur = f'd{i}'
+    feats = ['reuse', 'reuse-split', f'reuse-split-{variant}', f'reuse-split-delay{delay}', 'add',
+             'conv']
+    if variant == 'out':
+        ops.append({'op': 'add', 'srcs': [cur, 'h'], 'kind': 'op', 'out': 'o'})
+        out = 'o'
+    else:
+        ops += [conv('other', 'x0', 'q', c, co),
+                {'op': 'add', 'srcs': [cur, 'q'], 'kind': 'op', 'out': 'r'},
+                {'op': 'add', 'srcs': ['r', 'h'], 'kind': 'torch', 'out': 's'},
+                {'op': 'act', 'kind': 'relu_f', 'src': 's', 'out': 's1'},
+                conv('post', 's1', 'p', co, rng.randint(2, 4)),
+                {'op': 'pool', 'kind': 'aavg', 'k': 0, 'name': 'gap', 'src': 'p', 'out': 'e'},
+                {'op': 'flat', 'kind': 'meth', 'src': 'e', 'out': 'f'}]
+        post = next(o for o in ops if o.get('name') == 'post')
+        ops.append({'op': 'lin', 'name': 'fc', 'src': 'f', 'out': 'o', 'fin': post['cout'],
+                    'fout': 3, 'bias': True})
+        out = 'o'
+        feats += ['lin', 'pool', 'flat']
+    return {'family': family, 'inputs': inputs, 'ops': ops, 'out': out, 'excluded': [],
+            'features': feats, 'traits': []}
+
+
+def pad_sharing_program(rng, mode='per-site'):
+    """Causal Conv1d layers and their explicit `nn.ConstantPad1d` modules in the two arrangements
+    that differ from "one pad module per layer": mode 'per-site' - one convolution invoked twice,
+    each call site with its own pad module; mode 'shared-pad' - one pad module (a stateless layer)
+    used in front of two different convolutions of equal kernel size."""
+    c = rng.randint(2, 4)
+    L = rng.randint(8, 14)
+    k = rng.choice([2, 3, 4, 5])
+    d = rng.choice([1, 1, 2])
+    base = {'op': 'conv', 'k': k, 'd': d, 's': 1, 'pad': 'causal', 'dw': False}
+    if mode == 'per-site':
+        sh = dict(base, name='shared', cin=c, cout=c, bias=rng.random() < 0.7)
+        ops = [dict(sh, src='x0', out='a', pad_mod='pad_a'),
+               {'op': 'act', 'kind': 'relu_f', 'src': 'a', 'out': 'a1'},
+               dict(sh, src='a1', out='b', pad_mod='pad_b', reuse=True),
+               {'op': 'act', 'kind': 'relu_t', 'src': 'b', 'out': 'b1'},
+               {'op': 'add', 'srcs': ['a1', 'b1'], 'kind': 'op', 'out': 'r'}]
+        last, cl = 'r', c
+    else:
+        c2, c3 = rng.randint(2, 5), rng.randint(2, 5)
+        ops = [dict(base, name='c1', cin=c, cout=c2, bias=True, src='x0', out='a', pad_mod='pad'),
+               {'op': 'act', 'kind': 'relu_f', 'src': 'a', 'out': 'a1'},
+               dict(base, name='c2', cin=c2, cout=c3, bias=rng.random() < 0.7, src='a1', out='b',
+                    pad_mod='pad'),
+               {'op': 'act', 'kind': 'relu_t', 'src': 'b', 'out': 'b1'}]
+        last, cl = 'b1', c3
+    ops += [dict(base, name='post', cin=cl, cout=rng.randint(2, 4), bias=True, src=last, out='p',
+                 k=2, d=1),
+            {'op': 'pool', 'kind': 'aavg', 'k': 0, 'name': 'gap', 'src': 'p', 'out': 'e'},
+            {'op': 'flat', 'kind': 'meth', 'src': 'e', 'out': 'f'}]
+    post = next(o for o in ops if o.get('name') == 'post')
+    ops.append({'op': 'lin', 'name': 'fc', 'src': 'f', 'out': 'o', 'fin': post['cout'], 'fout': 3,
+                'bias': True})
+    feats = ['conv', 'lin', 'pool', 'flat', 'pad-sharing', 'pad-' + mode] + \
+        (['reuse', 'add'] if mode == 'per-site' else [])
+    return {'family': '1d', 'inputs': [[c, L]], 'ops': ops, 'out': 'o', 'excluded': [],
+            'features': feats, 'traits': []}
+
+
+SPECIALS = ['split-out', 'split-res', 'pad-per-site', 'pad-shared']
+
+
+def special_program(rng, family, name, delay=0):
+    """the hand-shaped productions above by name (the pad ones exist for 1-D networks only)"""
+    if name == 'split-out':
+        return reuse_split_program(rng, family, delay, 'out')
+    if name == 'split-res':
+        return reuse_split_program(rng, family, delay, 'res')
+    if name == 'pad-per-site':
+        return pad_sharing_program(rng, 'per-site')
+    if name == 'pad-shared':
+        return pad_sharing_program(rng, 'shared-pad')
+    raise ValueError(name)
+
+
+def special_cases(n, seed, base):
+    """n case dictionaries `base` + {'special', 'delay', 'family', seeds}: every production, both
+    families, delays 0..5 (the delay decides which call site a reverse BFS reaches first)"""
+    out = []
+    for i in range(n):
+        name = SPECIALS[i % 4]
+        fam = '1d' if name.startswith('pad') or (i // 4) % 2 == 0 else '2d'
+        out.append(dict(base, special=name, delay=(i // 8) % 6, family=fam,
+                        prog_seed=seed * 6007 + 500 + i, seed=seed * 6011 + i))
+    return out
 
 
 def tensor_shapes(prog):
